@@ -32,14 +32,37 @@ func TestReplay(t *testing.T)       { vk.TestReplay(t) }
 
 type KV struct {
 	K, V string
-	Op   string `json:",omitempty"` // "" = Add..., set = Set... (replaces every earlier value of the key), del = Del...
+	Op   string `json:",omitempty"` // "" = Add..., set = Set... (replaces every earlier value of the key), del = Del..., struct = Set...WithStruct with a scalar field (replaces too)
+}
+
+// scalar structs for the ...WithStruct setters: one tagged field per key of the pools
+type structK1 struct {
+	V string `param:"k1" form:"k1"`
+}
+type structK2 struct {
+	V string `param:"k2" form:"k2"`
+}
+type structK3 struct {
+	V string `param:"k3" form:"k3"`
+}
+
+func structFor(k, v string) any {
+	switch k {
+	case "k1":
+		return structK1{v}
+	case "k2":
+		return structK2{v}
+	case "k3":
+		return structK3{v}
+	}
+	return nil
 }
 
 // fold applies the configuration calls in order to a multimap and returns the entries that remain
 func fold(ops []KV) []KV {
 	var out []KV
 	for _, o := range ops {
-		if o.Op == "set" || o.Op == "del" {
+		if o.Op == "set" || o.Op == "del" || o.Op == "struct" {
 			kept := out[:0:0]
 			for _, e := range out {
 				if e.K != o.K {
@@ -173,6 +196,8 @@ func checkFidelity(c Fidelity) vk.Verdict {
 				cl.SetParam(kv.K, kv.V)
 			case "del":
 				cl.DelParams(kv.K)
+			case "struct":
+				cl.SetParamsWithStruct(structFor(kv.K, kv.V))
 			default:
 				cl.AddParam(kv.K, kv.V)
 			}
@@ -206,6 +231,8 @@ func checkFidelity(c Fidelity) vk.Verdict {
 				r.SetParam(kv.K, kv.V)
 			case "del":
 				r.DelParams(kv.K)
+			case "struct":
+				r.SetParamsWithStruct(structFor(kv.K, kv.V))
 			default:
 				r.AddParam(kv.K, kv.V)
 			}
@@ -248,6 +275,8 @@ func checkFidelity(c Fidelity) vk.Verdict {
 					r.SetFormData(kv.K, kv.V)
 				case "del":
 					r.DelFormData(kv.K)
+				case "struct":
+					r.SetFormDataWithStruct(structFor(kv.K, kv.V))
 				default:
 					r.AddFormData(kv.K, kv.V)
 				}
@@ -259,6 +288,8 @@ func checkFidelity(c Fidelity) vk.Verdict {
 					r.SetFormData(kv.K, kv.V)
 				case "del":
 					r.DelFormData(kv.K)
+				case "struct":
+					r.SetFormDataWithStruct(structFor(kv.K, kv.V))
 				default:
 					r.AddFormData(kv.K, kv.V)
 				}
@@ -456,7 +487,7 @@ func withOps(t *rapid.T, label string, in []KV, hasDel bool) []KV {
 	}
 	pool := []string{"", "set", "set"}
 	if hasDel {
-		pool = append(pool, "del")
+		pool = append(pool, "del", "struct")
 	}
 	for i := range in {
 		in[i].Op = rapid.SampledFrom(pool).Draw(t, label+"op")
